@@ -38,7 +38,7 @@ type genRec struct {
 // generate runs Gen_PageTree (one worker: the module appends lines to a file).
 func generate(ctx *core.Ctx, cfg, simulate string, depth int, seed int64, quiet bool) ([]genRec, error) {
 	o := core.TLCOpts{Dir: "tree", Module: "Gen_PageTree", Cfg: cfg, Mode: "generate", Workers: 1,
-		Env: map[string]string{"OUT": "gen.txt"}, Timeout: ctx.Dur(6, 20), XssMB: 256, Quiet: quiet}
+		Env: map[string]string{"OUT": "gen.txt"}, Timeout: ctx.Dur(10, 30), XssMB: 256, Quiet: quiet}
 	if simulate != "" {
 		o.Mode, o.Simulate, o.Depth, o.Seed = "simulate", simulate, depth, seed
 	}
